@@ -34,9 +34,13 @@ def build(c):
     """the object handed to KS_bounds"""
     I = _mods()[2]
     if c["kind"] == "interval":
+        if c.get("dtype"):
+            return I(lo=np.array(c["lo"], dtype=float).astype(c["dtype"]), hi=np.array(c["hi"], dtype=float).astype(c["dtype"]))
         return I(lo=np.array(c["lo"], dtype=float), hi=np.array(c["hi"], dtype=float))
     s = c["s"]
     cont = c.get("cont", "array")
+    if cont.startswith("dt:"):               # ndarray of an arbitrary numpy dtype (values are exactly representable in it)
+        return np.array(s, dtype=float).astype(cont[3:])
     if cont == "list":
         return list(s)
     if cont == "col":
@@ -237,6 +241,36 @@ def selections(rng, lo, hi, k):
     return sels
 
 
+DTYPES = ["uint8", "uint16", "uint32", "uint64", "int8", "int16", "int32", "float32", "float16", "bool"]
+
+
+def _dtype_vals(rng, dt, n):
+    """n values exactly representable in dtype dt (returned as floats), reaching both ends of its range"""
+    if dt == "bool":
+        v = [float(rng.random() < 0.5) for _ in range(n)]
+        v[0], v[-1] = 1.0, 0.0
+        return v
+    if dt.startswith("float"):
+        sc = 10 ** rng.uniform(-2, 3)
+        return [float(x) for x in np.array([rng.gauss(0, 1) * sc for _ in range(n)]).astype(dt)]
+    info = np.iinfo(dt)
+    lo, hi = int(info.min), min(int(info.max), 2 ** 53)
+    pool = [lo, lo + 1, hi, hi - 1, hi // 2, 3, 7]
+    v = [rng.choice(pool) if rng.random() < 0.6 else rng.randint(lo, hi) for _ in range(n)]
+    v[0], v[1] = hi, lo              # a jump over the whole range right at the start
+    return [float(x) for x in v]
+
+
+def _dtype_widen(rng, dt, vals):
+    if dt == "bool":
+        return [max(v, float(rng.random() < 0.5)) for v in vals]
+    if dt.startswith("float"):
+        w = (max(vals) - min(vals)) or 1.0
+        return [float(x) for x in np.array([v + rng.random() * w * 0.3 for v in vals]).astype(dt)]
+    hi = min(int(np.iinfo(dt).max), 2 ** 53)
+    return [float(min(hi, int(v) + rng.choice([0, 1, 2, 50]))) for v in vals]
+
+
 UNSUPPORTED = [0.2, 0.01, 0.5, 0.95, 0.9, 0.975, 0.0, 1.0, -0.05, 2.0, 0.15 - 0.1, math.nextafter(0.05, 1.0),
                math.nextafter(0.1, 0.0), 0.1 + 0.05, 1e-300, 0.3, 0.001, float("nan"), float("inf"), 0, 1]
 
@@ -292,6 +326,26 @@ def gen_cases(ctx):
             hi = [m + g * rng.choice([1, 4 / 3, 0.5]) for m in mid]
         cases.append({"stream": "thin-interval", "kind": "interval", "lo": lo, "hi": hi, "style": "thin",
                       "alpha": SUPPORTED[i % 3], "nsel": 2, "display": i % 6 == 0})
+    # 3c. every numpy dtype as sample container (values near the ends of the dtype's range, so that differences wrap
+    #     around in the dtype), unsorted / sorted / reversed; interval data with the same dtypes
+    for di, dt in enumerate(DTYPES):
+        for form in ("unsorted", "unsorted", "sorted", "reversed", "interval"):
+            n = rng.choice([2, 3, 5, 9, 30])
+            vals = _dtype_vals(rng, dt, n)
+            if form == "sorted":
+                vals = sorted(vals)
+            elif form == "reversed":
+                vals = sorted(vals, reverse=True)
+            elif n > 2 and vals == sorted(vals):
+                vals = vals[1:] + vals[:1]
+            a = SUPPORTED[(di + len(cases)) % 3]
+            if form == "interval":
+                hi = _dtype_widen(rng, dt, vals)
+                cases.append({"stream": "dtypes", "kind": "interval", "lo": vals, "hi": hi, "dtype": dt, "alpha": a,
+                              "nsel": 1, "style": dt, "display": di % 4 == 0})
+            else:
+                cases.append({"stream": "dtypes", "kind": "precise", "s": vals, "cont": "dt:" + dt, "alpha": a,
+                              "style": dt + ":" + form, "display": (di + n) % 5 == 0})
     # 4. unsupported levels (always contains the known-finding witness alpha=0.2)
     for j, a in enumerate(UNSUPPORTED):
         n = [5, 2, 17, 100][j % 4]
@@ -638,6 +692,8 @@ def run(ctx: core.Check, cases=None):
                 "each with lo/hi/mid + 3 random selections (uniform, endpoint mix, piled ties); 21 fixed + random unsupported levels "
                 "(neighbours of the table keys, confidence-level confusions, 0, 1, negative, nan, inf); empty sample; synthetic bundles "
                 "with about a third of the calls made as KS_bounds(s, alpha[, output_type='pbox']) with display LEFT AT ITS DEFAULT (Agg backend); "
+                "every numpy dtype as container (uint8..uint64, int8/16/32 with values at both ends of the range, float32, float16, bool; unsorted, sorted, reversed; "
+                "also as Interval endpoints); alpha as float32/float16/longdouble/0-d,1-d array/str/Fraction/Decimal (must raise or equal the float's answer); "
                 "thin-but-wide interval data (units 1e-9..1e-15, locations 2e6..1e9 with gaps 3e-6 relative); integer lists / int32 / int64 samples; "
                 "every third result object kept alive and re-read + call repeated after later calls; the two-step route bounds -> pbox_from_ecdf_bundle; "
                 "through Staircase.from_CDFbundle (crossing pairs must raise, as the Pbox constructor does since 1ca78ea). Non-trivial: sample not constant (or interval/unsupported/bundle case); "
@@ -686,6 +742,7 @@ def run(ctx: core.Check, cases=None):
     ring.clear()
     if ctx_full_run(cases):
         aliasing_stream(ctx)
+        alpha_forms_stream(ctx)
     replies = core.model_batch("C17", reqs)
     d_alpha = _mods()[1]
     for c, impl, (st, k, tags) in zip(cases, impls, spans):
@@ -844,8 +901,53 @@ def run(ctx: core.Check, cases=None):
                     ctx.fail(feat(c, "KS_bounds(pbox)", "interval-pbox-misses-selection", n=n, selection=nm),
                              {**cj(c), "selection": x}, f"the p-box of the interval data does not contain the p-box of selection '{nm}'")
                     break
-        if len(ctx.samples) < 6 and stream in ("random-precise", "random-interval", "thin-interval") and n <= 6:
+        if len(ctx.samples) < 6 and stream in ("random-precise", "random-interval", "thin-interval", "dtypes") and n <= 6:
             ctx.sample({"case": cj(c), "D": D, "impl_band": _js(impl["band"]), "model_band": rep.get("band", "")[:400]})
+
+
+def alpha_forms_stream(ctx):
+    """alpha given as float32 / float16 / longdouble / numpy float64 / 0-d and 1-d arrays / string / Fraction / Decimal:
+    the call must either raise, or (only when float(alpha) IS a tabulated double) return what the plain float returns"""
+    from decimal import Decimal
+    KS_bounds, d_alpha = _mods()[0], _mods()[1]
+    rng = ctx.rng
+    samples = [np.array([3.0, 1.0, 2.0, 2.0, 5.0]), np.array(_scale_vals(rng, rng.randint(2, 40), "normal")),
+               _mods()[2](lo=np.array([0.0, 1.0, 4.0]), hi=np.array([0.5, 3.0, 4.0]))]
+    for a in SUPPORTED + [0.2]:
+        forms = [("float32", np.float32(a)), ("float16", np.float16(a)), ("longdouble", np.longdouble(a)),
+                 ("float64", np.float64(a)), ("array0d", np.array(a)), ("array1d", np.array([a])), ("str", repr(a)),
+                 ("fraction", F(repr(a))), ("decimal", Decimal(repr(a))), ("list", [a]), ("bytes", repr(a).encode())]
+        for data in samples:
+            n = len(data)
+            ref = None
+            if a in SUPPORTED:
+                u, l = KS_bounds(data, a, display=False)
+                ref = _canon_band(u, l)
+            for nm, obj in forms:
+                c = {"stream": "alpha-forms", "kind": "interval" if n == 3 and not isinstance(data, np.ndarray) else "precise",
+                     "alpha": a, "alpha_form": nm}
+                ctx.count(("aform", a, nm, n), True, "alpha-forms")
+                with np.errstate(all="ignore"):
+                    try:
+                        u, l = KS_bounds(data, obj, display=False)
+                        got = _canon_band(u, l)
+                    except BaseException as e:  # noqa
+                        ctx.bump("alpha-form-rejected")
+                        continue
+                try:
+                    same_level = float(obj) in SUPPORTED and float(obj) == a
+                except Exception:
+                    same_level = False
+                ok = same_level and ref is not None and all(
+                    len(x) == len(y) and all(abs(p - r) <= 1e-12 for p, r in zip(x, y)) for x, y in zip(got[1:], ref[1:]))
+                ctx.bump("alpha-form-answered")
+                if not ok:
+                    ctx.fail({"call": "KS_bounds", "kind": c["kind"], "alpha_supported": bool(same_level),
+                              "symptom": "alpha-form-answered-differently" if same_level else "unsupported-alpha-answered",
+                              "stream": "alpha-forms", "alpha_form": nm, "n": n},
+                             {**c, "alpha_repr": repr(obj), "data": _fl(data.lo if c["kind"] == "interval" else data)[:40]},
+                             f"alpha={obj!r} ({nm}) was answered but " + ("differs from the answer for the float" if same_level else
+                                                                            "is not one of the tabulated doubles"))
 
 
 def ctx_full_run(cases):
